@@ -100,7 +100,9 @@ class FLoadModel(Model):
         """
         Disable the linked PQs.
         """
-        self.system.groups['StaticLoad'].set(src='u', idx=self.pq.v, attr='v', value=0)
+        # only devices in service replace their static counterparts
+        mask_idx = [self.pq.v[i] for i in range(self.n) if self.u.v[i] == 1]
+        self.system.groups['StaticLoad'].set(src='u', idx=mask_idx, attr='v', value=0)
 
 
 class FLoad(FLoadData, FLoadModel):
